@@ -351,6 +351,19 @@ func (e *Exec) execBranch(s *ast.BranchStmt) {
 				continue
 			}
 			if s.Tok == token.BREAK {
+				if lc.spec != nil && len(lc.spec.AtBreak) > 0 && e.dry == 0 && !lc.isSwitch {
+					pos := e.curPos
+					e.curPos = s.Pos()
+					for k, cl := range lc.spec.AtBreak {
+						benv := e.loopEnv()
+						benv.prev = lc.iterStart
+						benv.scopePos = s.Pos()
+						t := e.specBool(cl, benv)
+						lc.nbreak++
+						e.oblige(fmt.Sprintf("atbreak#%s.%d@%d", lc.name, k, lc.nbreak), "assert", cl.Text, t)
+					}
+					e.curPos = pos
+				}
 				lc.breaks = append(lc.breaks, e.st)
 			} else {
 				lc.continues = append(lc.continues, e.st)
@@ -785,6 +798,8 @@ func (e *Exec) runLoop(lp *loopParts) {
 		exitSt = e.st
 	}
 	e.st = bodySt
+	iterStart := bodySt.clone()
+	lc.spec, lc.name, lc.iterStart = spec, name, iterStart
 	if spec != nil && spec.Decreases != nil {
 		v, _ := e.evalSpec(spec.Decreases.Expr, e.loopEnv())
 		decBefore = e.asInt(v)
@@ -807,7 +822,9 @@ func (e *Exec) runLoop(lp *loopParts) {
 				e.curPos = lp.body.Rbrace
 			}
 			for i, it := range spec.Iteration {
-				t := e.specBool(it, e.loopEnv())
+				ienv := e.loopEnv()
+				ienv.prev = iterStart
+				t := e.specBool(it, ienv)
 				e.oblige(fmt.Sprintf("iteration#%s.%d", name, i), "assert", it.Text, t)
 			}
 			e.curPos = pos
